@@ -400,6 +400,58 @@ def probe_codegen_flags(repo):
     return not problems, "; ".join(problems) or "flags %s" % sorted(set(flags))
 
 
+def probe_save_order(repo):
+    """-> (ok, detail).  Fail-closed: in save_model the cache file is removed, under `if compiler_options["codegen"]`,
+    BEFORE the loop that rebuilds the shared libraries with _codegen_model, and written only after that loop."""
+    import ast
+    try:
+        tree = ast.parse(open(os.path.join(repo, "src/pymoca/backends/casadi/api.py")).read())
+    except (OSError, SyntaxError) as e:
+        return False, "cannot parse api.py: %s" % e
+    fn = [n for n in tree.body if isinstance(n, ast.FunctionDef) and n.name == "save_model"]
+    if len(fn) != 1:
+        return False, "save_model not found"
+    pos = {"db_file": None, "remove": None, "codegen": None, "write": None}
+    for i, st in enumerate(fn[0].body):
+        src = ast.unparse(st)
+        if isinstance(st, ast.Assign) and ast.unparse(st.targets[0]) == "db_file":
+            if ast.unparse(st.value) != "os.path.join(model_folder, model_name + '.pymoca_cache')" or pos["db_file"] is not None:
+                return False, "db_file is not os.path.join(model_folder, model_name + '.pymoca_cache') assigned once"
+            pos["db_file"] = i
+        calls = [ast.unparse(c.func) for c in ast.walk(st) if isinstance(c, ast.Call)]
+        if "_codegen_model" in calls and pos["codegen"] is None:
+            pos["codegen"] = i
+        if isinstance(st, ast.If) and ast.unparse(st.test) == "compiler_options['codegen']" and not st.orelse \
+                and any(isinstance(c, ast.Call) and ast.unparse(c) in ("os.remove(db_file)", "os.unlink(db_file)")
+                        for c in ast.walk(st)) and pos["remove"] is None:
+            # the removal must be unconditional inside the branch (a `with contextlib.suppress(FileNotFoundError)` is fine)
+            inner = st.body
+            if len(inner) == 1 and isinstance(inner[0], ast.With) and \
+                    ast.unparse(inner[0].items[0].context_expr) == "contextlib.suppress(FileNotFoundError)":
+                inner = inner[0].body
+            if len(inner) == 1 and isinstance(inner[0], ast.Expr) and ast.unparse(inner[0]) in ("os.remove(db_file)", "os.unlink(db_file)"):
+                pos["remove"] = i
+        if "open" in calls and "db_file" in src and pos["write"] is None and "pickle.dump" in src:
+            pos["write"] = i
+    if None in pos.values():
+        return False, "not recognised: %s" % {k: v for k, v in pos.items()}
+    if not (pos["db_file"] < pos["remove"] < pos["codegen"] < pos["write"]):
+        return False, "order of (db_file, remove, codegen loop, write) is %s" % pos
+    return True, "remove@%d < codegen-loop@%d < write@%d (statement indices in save_model)" % (pos["remove"], pos["codegen"], pos["write"])
+
+
+INTERRUPTED = ("interrupted-codegen-save", {}, {"replace_constant_values": True}, """model M
+  parameter Real k = 2.0;
+  constant Real c = 3.0;
+  Real x(start = 1.0, max = 5.0*k);
+  Real y;
+equation
+  der(x) = -k*c*x;
+  y = c*x + k;
+end M;
+""")
+
+
 SEQ_BASE = {"eliminate_constant_assignments": True, "factor_and_simplify_equations": True,
             "replace_constant_expressions": True, "replace_constant_values": True, "detect_aliases": True}
 # options that Model.simplify reads with options.get() and that are NOT in the default option dictionary
@@ -662,6 +714,11 @@ def degenerate(res):
 def judge_sequence(case, res):
     for k, (opts, rec) in enumerate(zip(case["steps"], res["steps"])):
         where = "request %d (options %s)" % (k + 1, json.dumps(opts, sort_keys=True))
+        if "interrupted" in case:
+            where = ("load with options %s after a complete codegen save with them and a codegen save with options %s that was "
+                     "killed (rc %s) after the last _codegen_model call (cache file present afterwards: %s)"
+                     % (json.dumps(opts, sort_keys=True), json.dumps(case["interrupted"]["opts_b"], sort_keys=True),
+                        res.get("step2_rc"), res.get("cache_file_after_interrupted_save")))
         if "fresh_exc" in rec:
             for key in ("a", "b"):
                 if rec.get(key + "_exc") != rec["fresh_exc"]:
@@ -893,6 +950,12 @@ def build_cases(ctx):
         # thorough tier; or the flag probe failed: one compiled model evaluated at NaN / inf points so that a
         # value-changing compiler flag shows up as a concrete failing input
         cases.append({"name": "M", "text": t_, "opts": o_, "mode": "codegen", "origin": "directed-codegen:" + n_})
+    if n_cg or not ctx.notes.get("save_order_probe_ok", True):
+        # thorough tier; or the order probe failed: complete codegen save with A, codegen save with B killed after the
+        # last _codegen_model call, load with A - in separate processes, on one folder
+        n, oa, ob, t = INTERRUPTED
+        cases.append({"name": "M", "text": t, "steps": [oa], "interrupted": {"opts_b": ob}, "mode": "codegen",
+                      "origin": "directed-interrupted:" + n})
     if n_cg:
         text, feats = gen_nonsmooth(ctx.rng)
         cases.append({"name": "M", "text": text, "opts": {}, "mode": "codegen", "origin": "generated-nonsmooth-codegen",
@@ -910,6 +973,10 @@ def run(ctx):
     ctx.notes["codegen_flags_probe_ok"] = ok
     ctx.notes["codegen_flags_probe"] = detail
     ctx.oblige("tie:codegen-compiler-flags-are-value-preserving(api.py _codegen_model)", ok, detail)
+    ok, detail = probe_save_order(core.REPO)
+    ctx.notes["save_order_probe_ok"] = ok
+    ctx.notes["save_order_probe"] = detail
+    ctx.oblige("tie:save_model-removes-the-cache-file-before-rebuilding-the-libraries(api.py save_model)", ok, detail)
     cases = build_cases(ctx)
     with ThreadPoolExecutor(max_workers=1) as ex:
         fut = ex.submit(run_parallel, ctx, cases)
@@ -930,7 +997,7 @@ def run(ctx):
             if tag == "harness":
                 ctx.oblige("harness:child", False, why)
                 continue
-            core.report(ctx, tag, why, {"input": {k: c[k] for k in ("name", "text", "opts", "steps", "mode") if k in c},
+            core.report(ctx, tag, why, {"input": {k: c[k] for k in ("name", "text", "opts", "steps", "interrupted", "mode") if k in c},
                                         "why": why})
         if "steps" in r:
             stats["sequences"] = stats.get("sequences", 0) + 1
